@@ -5,6 +5,8 @@
         (keywords)             -> kw:(TYPE) ... sorted
         (drive (args "a.fo" ...) (files "a.fo" "gen_b.go" ...) (dirs ...) (unwritable ...) (bad i ...))
                                -> EXIT0 written=(<dest>:<arg index> ...) | FAIL <k> <READ|TRANSLATE|WRITE> written=(...)
+        (resolve (rels ("T3" "<type>") ...) "<type>") -> RESOLVED <type> | CYCLIC
+          types in prefix notation: int | str | bool | v:T<n> | sl t | tu:<n> t... | fn:<n> t...
           files: regular files present (inputs and pre-existing outputs); bad: argument indices whose translation fails;
           written: destinations of the .fo arguments whose final content was written by this run, with the
           index of the argument that wrote it last (sorted by name)
@@ -50,7 +52,45 @@ let payload = function
 
 let tok4 (((ty, b), l), p) = Printf.sprintf "%s:%d:%d:%s" (tname ty) (int_of_nat b) (int_of_nat l) (payload p)
 
+(* prefix notation of types <-> Core.Resolve.ty *)
+let var_of s = nat_of_int (int_of_string (String.sub s 3 (String.length s - 3)))   (* v:T<n> *)
+let rec parse_ty toks =
+  match toks with
+  | [] -> raise (Parse_error "type")
+  | t :: rest ->
+    let list n rest =
+      let rec go n rest acc = if n = 0 then (List.rev acc, rest) else
+          let (e, rest) = parse_ty rest in go (n - 1) rest (e :: acc) in
+      go n rest [] in
+    let arity t = int_of_string (String.sub t 3 (String.length t - 3)) in
+    if t = "int" then (TBase O, rest)
+    else if t = "str" then (TBase (S O), rest)
+    else if t = "bool" then (TBase (S (S O)), rest)
+    else if String.length t > 3 && String.sub t 0 3 = "v:T" then (TVar (var_of t), rest)
+    else if t = "sl" then let (e, rest) = parse_ty rest in (TSlice e, rest)
+    else if String.length t > 3 && String.sub t 0 3 = "tu:" then let (ts, rest) = list (arity t) rest in (TTuple ts, rest)
+    else if String.length t > 3 && String.sub t 0 3 = "fn:" then let (ts, rest) = list (arity t) rest in (TFunc ts, rest)
+    else raise (Parse_error ("type token " ^ t))
+let ty_of_string s =
+  match parse_ty (List.filter (fun x -> x <> "") (String.split_on_char ' ' s)) with
+  | (t, []) -> t
+  | _ -> raise (Parse_error "trailing type tokens")
+let rec show_ty = function
+  | TVar v -> "v:T" ^ string_of_int (int_of_nat v)
+  | TBase b -> (match int_of_nat b with 0 -> "int" | 1 -> "str" | _ -> "bool")
+  | TSlice e -> "sl " ^ show_ty e
+  | TTuple ts -> String.concat " " (("tu:" ^ string_of_int (List.length ts)) :: List.map show_ty ts)
+  | TFunc ts -> String.concat " " (("fn:" ^ string_of_int (List.length ts)) :: List.map show_ty ts)
+
 let () = Registry.register "C16" (function
+    | L [A "resolve"; L (A "rels" :: rels); t] ->
+      let m = List.map (function
+          | L [v; ty] -> (nat_of_int (int_of_string (let s = str_of v in String.sub s 1 (String.length s - 1))), ty_of_string (str_of ty))
+          | _ -> raise (Parse_error "rel")) rels in
+      (match resolve m (ty_of_string (str_of t)) with
+       | Resolved r -> "RESOLVED " ^ show_ty r
+       | Cyclic -> "CYCLIC"
+       | ROutOfFuel -> "FUEL")
     | L [A "scan"; s; p] ->
       let buf = bytes_of (str_of s) in
       let fuel = S (nat_of_int (String.length (str_of s))) in
